@@ -623,6 +623,9 @@ class McBlockExtra(TlbScheme):
         key_block = cell_slice.load_bit()
         shard_hashes = deserialize_shard_hashes(cell_slice)
         shard_fees = cell_slice.load_maybe_ref()
+        # ShardFees is a HashmapAugE: its root extra (ShardFeeCreated: fees, create) follows the dictionary inline
+        CurrencyCollection.deserialize(cell_slice)
+        CurrencyCollection.deserialize(cell_slice)
         ref = cell_slice.load_ref().begin_parse()
         prev_blk_signatures = ref.load_dict(16)
         recover_create_msg = ref.load_maybe_ref()
